@@ -94,6 +94,7 @@ type extGen struct {
 	// Such names are ambiguous for Lookup (which of the equally named nodes it reaches
 	// first depends on the built-in layout): they are never looked up and never serve
 	// as a parent handle in that run - decided when the first carrier is created.
+	pendingTrapParent *model.Ext // the accepting extension a trap hangs on (to be registered first)
 	collideOn  bool
 	ambiguous  map[string]bool
 	twinnable  []*model.Ext
@@ -105,6 +106,34 @@ type extGen struct {
 // entered then. Bounded by what a limit-sized allocation costs per call.
 func bigLimit(r *core.Rand) uint32 {
 	return []uint32{65537, 1<<20 + 1, 1<<20 + 1, 1<<24 + 1, 1<<24 + 1, 1<<24 + 1, 1 << 25, 1<<26 + 7, 1<<27 + 3}[r.Intn(9)]
+}
+
+// trap makes a detector with a bug: it rejects everything and panics on the
+// poison inputs of variant v. Binary poison reaches only root-level detectors
+// (and what hangs below an extension accepting it); textual poison also reaches
+// what hangs on text/plain.
+func (g *extGen) trap(v int) *model.Ext {
+	id := g.next
+	g.next++
+	e := &model.Ext{ID: id, ParentExt: -1, Arr: -1, Mime: fmt.Sprintf("x-verif/trap%d", id), Extension: fmt.Sprintf(".t%d", id)}
+	e.Pred = model.Pred{Never: true, PanicPrefix: hex.EncodeToString([]byte(inputs.PoisonPrefix(v)))}
+	if v%2 == 1 && g.r.Chance(1, 2) && !g.charsetNamesOn && !g.ambiguous["text/plain"] {
+		e.Parent = "text/plain"
+	}
+	// below an extension that accepts the poison: the panic comes mid-descent
+	if g.r.Chance(1, 2) {
+		pre := []byte(inputs.PoisonPrefix(v))
+		a := g.accepting(e.Parent, pre)
+		a.Pred = model.Pred{Prefix: hex.EncodeToString(pre[:4])}
+		e.Parent, e.ParentExt = a.Mime, a.ID
+		if g.parentName == nil {
+			g.dupName, g.parentName = map[string]bool{}, map[string]bool{}
+		}
+		g.parentName[a.Mime] = true
+		g.pendingTrapParent = a
+	}
+	g.made = append(g.made, e)
+	return e
 }
 
 // builtinDupMenu are built-in formats an extension may be named after in a collide run.
